@@ -280,6 +280,27 @@ Proof.
       destruct (is_dir st (parent p)); simpl; try exact HI; apply inv_write; assumption.
 Qed.
 
+Lemma inv_os_open st p f d : Inv f0 st -> Inv f0 (fst (do_os_open st p f d)).
+Proof.
+  intro HI. unfold do_os_open.
+  destruct (guarded f) eqn:G; simpl.
+  - destruct (foreign st p) eqn:Ef; [exact HI|].
+    assert (Hp : f0 p = None) by (eapply not_foreign_none; eauto).
+    destruct (o_tmpfile f).
+    + destruct (fs st p) as [[c|]|]; simpl; try exact HI.
+      destruct (acc_writes (acc f)); simpl; [apply inv_record; assumption|exact HI].
+    + destruct (fs st p) as [[c|]|]; simpl.
+      * destruct (o_creat f && o_excl f); simpl; [exact HI|apply inv_write; assumption].
+      * destruct (o_creat f || o_trunc f || acc_writes (acc f)); simpl; [exact HI|apply inv_record; assumption].
+      * destruct (o_creat f); simpl; [|exact HI].
+        destruct (is_dir st (parent p)); simpl; [apply inv_write; assumption|exact HI].
+  - (* not guarded: no write access, no O_CREAT, O_TRUNC, O_APPEND, O_TMPFILE: nothing can change *)
+    unfold guarded in G. apply orb_false_iff in G. destruct G as [G Gt].
+    apply orb_false_iff in G. destruct G as [G Ga]. apply orb_false_iff in G. destruct G as [G Gtr].
+    apply orb_false_iff in G. destruct G as [Gw Gc]. rewrite Gt, Gc, Gtr, Gw. simpl.
+    destruct (fs st p) as [[c|]|]; simpl; exact HI.
+Qed.
+
 Lemma inv_touch st p : Inv f0 st -> Inv f0 (fst (do_touch st p)).
 Proof.
   intro HI. unfold do_touch. destruct (fs st p) eqn:E; simpl.
@@ -389,6 +410,7 @@ Lemma step_inv st o : Inv f0 st -> Inv f0 (fst (step st o)).
 Proof.
   intro HI. destruct o; simpl.
   - apply inv_open; exact HI.
+  - apply inv_os_open; exact HI.
   - apply inv_touch; exact HI.
   - apply inv_mkdir; exact HI.
   - apply inv_makedirs; exact HI.
@@ -486,6 +508,13 @@ Proof.
   - unfold do_open. destruct (writes m && foreign st p); [congruence|].
     destruct (fs st p) as [[c|]|]; try congruence; destruct m; try congruence;
       destruct (is_dir st (parent p)); congruence.
+  - unfold do_os_open. destruct (guarded f && foreign st p); [congruence|].
+    destruct (o_tmpfile f).
+    + destruct (fs st p) as [[c|]|]; try congruence. destruct (acc_writes (acc f)); congruence.
+    + destruct (fs st p) as [[c|]|].
+      * destruct (o_creat f && o_excl f); [congruence|]. destruct (guarded f); congruence.
+      * destruct (o_creat f || o_trunc f || acc_writes (acc f)); congruence.
+      * destruct (o_creat f); [|congruence]. destruct (is_dir st (parent p)); congruence.
   - unfold do_touch. destruct (fs st p); [congruence|]. destruct (is_dir st (parent p)); congruence.
   - unfold do_mkdir. destruct (fs st p) as [[c|]|]; try congruence.
     + destruct eo; congruence.
@@ -516,6 +545,32 @@ Proof.
   - unfold do_rmtree. destruct (negb (mem p (created st))); [congruence|].
     destruct (fs st p) as [[c|]|]; try congruence. destruct (has_child st p); congruence.
 Qed.
+
+(* ---------- os.open: every flag set that can modify is guarded ---------- *)
+(* an open whose flags the wrapper lets through unguarded changes nothing at all, whatever the path *)
+Theorem os_open_unguarded_harmless st p f d : guarded f = false -> fst (do_os_open st p f d) = st.
+Proof.
+  intro G. unfold do_os_open. rewrite G. simpl.
+  unfold guarded in G. apply orb_false_iff in G. destruct G as [G Gt].
+  apply orb_false_iff in G. destruct G as [G Ga]. apply orb_false_iff in G. destruct G as [G Gtr].
+  apply orb_false_iff in G. destruct G as [Gw Gc]. rewrite Gt, Gc, Gtr, Gw. simpl.
+  destruct (fs st p) as [[c|]|]; reflexivity.
+Qed.
+
+(* hence on a path that is not isolated NO flag set has any effect: it is refused or harmless *)
+Theorem os_open_foreign_no_effect st p f d : foreign st p = true -> fst (do_os_open st p f d) = st.
+Proof.
+  intro Ef. destruct (guarded f) eqn:G.
+  - unfold do_os_open. rewrite G, Ef. reflexivity.
+  - apply os_open_unguarded_harmless. exact G.
+Qed.
+
+(* the dangerous combination of the kernel semantics: read-only access with O_TRUNC empties a file;
+   it is guarded (and therefore refused on pre-existing files) *)
+Example trunc_rdonly_guarded :
+  guarded {| acc := ARd; o_creat := false; o_excl := false; o_trunc := true; o_append := false; o_tmpfile := false |} = true
+  /\ written {| acc := ARd; o_creat := false; o_excl := false; o_trunc := true; o_append := false; o_tmpfile := false |} [1; 2] [9] = [].
+Proof. split; reflexivity. Qed.
 
 (* ---------- initial trees given as lists: the checked premise implies wf0 ---------- *)
 Lemma lookup_some_in l q n : lookup l q = Some n -> In (q, n) l.
